@@ -1,6 +1,7 @@
 package vrf
 
 import (
+	"fmt"
 	"time"
 	"sync"
 	"bytes"
@@ -227,10 +228,14 @@ func decodeOut(pi []byte) M {
 	var err error
 	out["decode_panic"] = vCatch(func() {
 		sharedTurn++
+		buf := append(make([]byte, 0, len(pi)+40), pi...) // the caller's read buffer: decoded from, then used for the next message
 		if sharedTurn%4 >= 2 { // U, U, S, S, ...: both decoders meet a value that already decoded and hashed something else
-			p, err = sharedProof.SetBytes(pi)
-		} else if err = sharedProof.UnmarshalBinary(pi); err == nil {
+			p, err = sharedProof.SetBytes(buf)
+		} else if err = sharedProof.UnmarshalBinary(buf); err == nil {
 			p = &sharedProof
+		}
+		for i := range buf[:cap(buf)] {
+			buf[:cap(buf)][i] = 0xA5
 		}
 	})
 	if err == nil && p != nil {
@@ -334,6 +339,34 @@ func runF(op string, in M) (M, M) {
 			p = msg
 		}
 		return M{"panic": p}, M{}
+	case "vrf.Sweep":
+		// every alpha length of a range against the independent RFC 9381 transcription (proof bytes, beta, Verify of the
+		// reference proof): whatever an implementation does in blocks or buffers changes gear at SOME length
+		seed := vBytes(in["seed"])
+		msg := ""
+		p := vCatch(func() {
+			rr := rand.New(rand.NewSource(int64(vIntOf(in["rseed"]))))
+			sk := NewKeyFromSeed(seed)
+			pk := sk.Public().(PublicKey)
+			for l := vIntOf(in["from"]); l <= vIntOf(in["to"]) && msg == ""; l++ {
+				alpha := make([]byte, l)
+				rr.Read(alpha)
+				ref := refProve(seed, alpha)
+				pi := Prove(sk, alpha).Bytes()
+				if !bytes.Equal(pi, ref.proof) {
+					msg = fmt.Sprintf("verif: Prove differs from the RFC 9381 transcription for an alpha of %d bytes", l)
+					break
+				}
+				ok, beta := Verify(pk, alpha, ref.proof)
+				if !ok || !bytes.Equal(beta, ref.beta) {
+					msg = fmt.Sprintf("verif: Verify rejects the RFC 9381 proof (or outputs another hash) for an alpha of %d bytes", l)
+				}
+			}
+		})
+		if p == "" {
+			p = msg
+		}
+		return M{"panic": p}, M{}
 	case "vrf.Decode":
 		out := decodeOut(vBytes(in["pi"]))
 		out["panic"] = out["decode_panic"]
@@ -375,6 +408,11 @@ func TestVerifDriver(t *testing.T) {
 		emit("vrf.Verify", M{"pk": vInts(pk), "alpha": vInts(alpha), "pi": vInts(pi), "expect": expect, "decodes": decodes, "beta": vInts(beta)})
 	}
 	small := smallOrderEncodings()
+	{
+		sseed := make([]byte, 32)
+		r.Read(sseed)
+		emit("vrf.Sweep", M{"seed": vInts(sseed), "rseed": r.Intn(1 << 30), "from": 0, "to": 300})
+	}
 	for k := 0; k < n; k++ {
 		seed := make([]byte, 32)
 		r.Read(seed)
